@@ -1,6 +1,115 @@
-"""B-cfi_uctx: the unwind context and its rule map, BODIES verified (DESIGN.md 6 C06 / C20 / C01; closes the hole left by B-cfi_unwind).
+"""B-cfi_uctx: the unwind context and its rule map, BODIES verified (DESIGN.md 6 C06 / C20 / C01); closes the hole left by B-cfi_unwind.
 
-(header completed at the end of development)
+B-cfi_unwind verifies `UnwindTable::{evaluate,next_row}` against `cfa_step` but only ASSUMES (external_body, no checked partner: the
+Kani harnesses time out) `RegisterRuleMap::{get,set,clear}` and `UnwindContext::{new_in,reset,row,row_mut,save_initial_rules,
+get_initial_rule,push_row,pop_row}`, and does not extract `UnwindContext::initialize`.  Here those bodies are verified from the real
+text of /repo/src/read/cfi.rs against THE SAME CLAUSES: the contract lists and ghost members are not copied but read out of
+cfi_unwind.py (`assumed_contracts()` evaluates the `X.splice(...)` / `X.insert_members(...)` calls of `cfi_unwind.populate_unwind`
+from its syntax tree), so every tagged sentence proved here is textually the sentence assumed there ([C06:rules-*], [C06:ctx-*],
+[C06:initial-*], [C06:storage-nonempty], [C20:reset-fresh], [C20:new-fresh], [C06:row-observe]); a change of cfi_unwind.py changes
+this batch's obligations, a change of its structure is a lost anchor (exit 2).  `abs()` / `hidden()` / `wf()` are cfi_unwind's
+definitions over the real fields (0 / 1 / many initial rules, hidden bottom row), unchanged.
+
+FUNCTIONS UNDER CONTRACT, VERIFIED FROM THEIR REAL TEXT
+  RegisterRuleMap::get               [C06:rules-get]    lookup in the finite map `view()` (NOW DEFINED: rules_map(self.rules@), the
+                                     first pair per register; vx/specs/cfi_uctx.rs)                       -- R-ITER rewrite, see below
+  RegisterRuleMap::set               [C06:rules-set] view' == view.insert(register, rule) on Ok; [C06:rules-capacity] Err <==> NEW
+                                     register and |view| >= capacity, then TooManyRegisterRules and nothing changed; keeps the
+                                     no-duplicate invariant                                                -- R-FORMUT rewrite
+  RegisterRuleMap::clear             [C06:rules-clear] Ok and view' == view.remove(register); keeps the invariant   -- R-ITER rewrite
+  RegisterRuleMap::{default,is_default,clone}   [C06:rules-default] empty map / emptiness test; clone has the same pairs
+  RegisterRuleMap as PartialEq::eq   verbatim, SAFETY ONLY (owner C01): the order-insensitive clause `res <==> view == rhs.view` is not
+                                     statable for a generic T (see NOT DECIDED)
+  CfaRule::{default,is_default}, UnwindTableRow::{default,is_default,clone}      [C20:cfa-default] [C20:row-default]
+                                     [C20:row-is-default]: the default row is (0, 0, CFA = r0 + 0, no rules, args_size 0) -- every
+                                     field, including saved_args_size, which is_default() itself does not look at
+  UnwindTableRow::{start_address,end_address,contains,saved_args_size,cfa,register}   [C06:row-observe] (as in B-cfi_unwind)
+  UnwindContext::new_in / reset      [C20:new-fresh] [C20:reset-fresh]: from ANY state (no precondition on the context) the abstract
+                                     context is ACtx::fresh(): one row equal to the default row in every field, no initial rules
+  UnwindContext::row / row_mut       [C06:ctx-row] the current row is the LAST row of the stack; writes through row_mut() replace it
+  UnwindContext::save_initial_rules  [C06:initial-capture] captures the rules of the CURRENT TOP row, in the 0-rule (Some(None)) /
+                                     1-rule (Some(Some(pair))) / many-rule (copy inserted as hidden row 0) representation, abstract
+                                     stack unchanged; [C06:initial-capture-limit] StackFull exactly when a hidden row is needed and
+                                     the storage is full, nothing changed then; [C06:initial-once]
+  UnwindContext::get_initial_rule    [C06:initial-rule] reads the captured rules back (None before initialisation)
+  UnwindContext::push_row / pop_row  [C06:ctx-push] [C06:ctx-push-limit] StackFull exactly at capacity (hidden row counted);
+                                     [C06:ctx-pop] [C06:ctx-pop-limit] PopWithEmptyStack exactly when one visible row is left (the
+                                     minimum depth is 2 with a hidden row, 1 without); errors change nothing
+  UnwindContext::{start_address,set_start_address,set_register_rule,clear_register_rule,set_cfa,cfa_mut}   B-cfi_unwind's clauses,
+                                     re-verified on top of the PROVED row()/row_mut()/set/clear
+  UnwindContext::initialize          verbatim.  requires only [C06:storage-nonempty] and [C01:address-size-validated] -- NOTHING about
+                                     the state of the context; [C20:initialize-resets-first] (tagged mid-point obligation before the CIE
+                                     table is built): the context is ACtx::fresh() and wf() -- fails if reset() is removed, made
+                                     conditional or moved; every later call (new_for_cie, next_row, save_initial_rules) has a context
+                                     precondition that only reset()'s postcondition discharges; [C06:initialize-saves-initial-rules]
+                                     on Ok the initial rules are the rules of the row the CIE program ended on; the `while` over
+                                     next_row terminates (measure: remaining instruction bytes, last row not yet returned)
+  UnwindTable::new_for_cie           verbatim; [C06:cie-table-starts-from-context] the CIE table works on the context it was given
+  CommonInformationEntry::{code_alignment_factor,data_alignment_factor}
+
+THE REPRESENTATION INVARIANT.  `set`/`clear`/the capacity clauses are only true for rule vectors WITHOUT DUPLICATE REGISTERS (with a
+  duplicate, `clear` would uncover the second pair and |map| != len).  A Verus type invariant is not usable (it is checked when
+  `iter_mut()` returns, before the writes), so `RegisterRuleMap::inv()` is carried explicitly: required/ensured by set/clear,
+  established by default(), part of UnwindContext::repr_ok() (closed) for every row of the stack.  This costs six UNTAGGED helper
+  clauses that differ from what B-cfi_unwind assumes (DELTAS below): inv through set/clear/row()/row_mut() -- row_mut() can only
+  promise repr_ok() of the final context IF the row written back still satisfies inv --, `requires wf()` on get_initial_rule (it
+  indexes stack[0]), and "next_row does not re-seat the context reference" (needed by initialize).  batches/cfi_uctx_link.py
+  regenerates B-cfi_unwind's file with exactly these deltas and verifies all of it (parse, evaluate, next_row, accessors): exit 0,
+  i.e. the assume/guarantee link closes and the added next_row clause is PROVED there from the real body.
+
+ASSUMED (TRUSTED beyond core's ledger)
+  ArrayVec (struct) + clear, try_push, try_insert, pop, swap_remove, default, deref, deref_mut, clone
+                                     model of read/util.rs (unsafe: MaybeUninit, raw pointers): a sequence bounded by ArrayLike::cap();
+                                     try_push/try_insert fail iff len >= cap; swap_remove/try_insert preconditions are the real
+                                     code's asserts; Deref/DerefMut expose the sequence as a slice (DESIGN P27), so `.last()`,
+                                     `.last_mut()`, `[0]`, `.len()`, `.is_empty()`, `.iter()`, `.iter_mut()` are vstd's slice specs.
+                                     clone: same sequence (the real impl clones element-wise; the only element type cloned by
+                                     extracted code is (Register, RegisterRule<T>)).  Kani K-AVEC checks the real code (bounded).
+  axiom_iter_mut_has_resolved        dropping a slice::IterMut leaves the elements it has not yielded unchanged (vstd specifies
+                                     IterMut::next/remaining but has no resolution axiom; needed for `return` inside the loop of set)
+  <RegisterRule<T> as Clone>::clone, <CfaRule<T> as Clone>::clone    derived Clone (all payloads Copy) returns an equal value; Verus
+                                     gives the derived Clone of a generic non-Copy type no specification (external_derive + assume)
+  mul                                Wrapping<u64|i64> model taken from cfi_unwind.MODEL (only constructed here, never multiplied)
+  next_row                           stub; its contract is the one VERIFIED by B-cfi_unwind (read from cfi_unwind.py) plus the
+                                     same-context clause proved by cfi_uctx_link
+  instructions (CIE)                 stub: the iterator over the CIE's initial instructions is well formed (bytes inside the section
+                                     the expression offsets are counted from): established by CIE parsing, B-cfi_entries [C10:view]
+  model text without contracts: `trait UnwindSection<R>: Clone + Debug {}` (bound only), `unsafe impl Structural for Vendor / Register`
+  (as in B-cfi_unwind), `PartialEqSpecImpl for RegisterRuleMap` with obeys_eq_spec() = false (switches vstd's trait postcondition off)
+
+EXTRACTION IS OPEN-ENDED: of the inherent impls of RegisterRuleMap / UnwindTableRow / UnwindContext (and CfaRule) EVERY method is
+  extracted except an explicit drop-list (RegisterRuleMap::iter, UnwindTableRow::registers: RegisterRuleIter is not extracted).  A
+  helper method added to one of these impls later is therefore in the generated file, verbatim and contract-less: its body is verified
+  for safety and its callers learn nothing from it, so a clause that depended on what it does fails (exit 1), it is not a missing
+  method (exit 2).  A `loop`/`while` this batch has no loop specification for (none on the pinned tree) gets `decreases 0int`
+  (guard_unknown_loops): a failed termination obligation of its function instead of Verus' front-end error.
+
+LOGGED REWRITES (Verus cannot take the original text; each keeps as much of it verbatim as possible so that edits reach the verifier)
+  R-ITER     get:   `self.rules.iter().find(|rule| P).map(|rule| F)`  ->  `for rule in self.rules.iter() { if P { return Some(F); } } None`
+             clear: `iter().enumerate().find(|&(_, r)| P).map(|(i, _)| i)` -> explicit `iter()/next()` loop counting positions (no
+             indexing); P and F are regex groups, i.e. verbatim
+  R-FORMUT   set:   `for &mut (reg, ref mut old_rule) in &mut *self.rules {` (ref pattern, mutable iteration) -> the desugaring of that
+             `for` (`iter_mut()` / `next()` / `break`) with the two bindings as `let`s; the loop BODY is verbatim.  An index loop is not
+             used.  `#[verifier::loop_isolation(false)]` on set and initialize: without it Verus forgets, inside a loop, which field a
+             borrow taken before the loop came from, and no postcondition about `self` is provable at a `return` inside the loop.
+  R-SLICEPAT save_initial_rules: `match *E { [] => A, [ref rule] => B, _ => C }` -> `match E.len() { 0 => A, 1 => { let rule = &E[0]; B } _ => C }`
+             (E, A, B, C verbatim)
+  R-CLONE    save_initial_rules: `rule.clone()` on a tuple -> `(rule.0, rule.1.clone())` (no built-in tuple Clone in Verus)
+  R-CLOSURE-SPEC  `.map_err(|_| Error::X)` gets its contract written out (3 sites)
+  with_attrs=False on RegisterRuleMap / UnwindTableRow / UnwindContext / UnwindTable (derives over the model ArrayVec)
+
+NOT DECIDED HERE
+  * RegisterRuleMap == as order-insensitive map equality: the derived PartialEq of RegisterRule<T> for a generic T: ReaderOffset has no
+    usable specification (T's own `eq` is abstract); only the safety of the real `eq` is verified.
+  * `initialize` is history-free in the sense above (no precondition on, and a pinned fresh state of, the context); "its result is a
+    function of the CIE bytes" additionally needs next_row == iterated cfa_step over the decoded stream (not decided in B-cfi_unwind).
+    After an error the context is left dirty by design; the next initialize() resets it ([C20:initialize-resets-first]).
+  * RegisterRuleMap::{iter, from_iter} (RegisterRuleIter wraps slice::Iter; from_iter is test-only), UnwindTableRow::registers,
+    UnwindContext::new / Default (delegate to new_in), derived Clone/PartialEq of UnwindContext.
+  * `set` stores RegisterRule::Undefined like any other rule (it does not remove the entry); this is what B-cfi_unwind's clause and
+    `cfa_step` (DW_CFA_undefined sets the rule `undefined`, distinct from the default rule) say, so no clause about removal exists.
+  * preconditions stated, not proved at the API boundary: storage with at least one row ([C06:storage-nonempty], reproducer
+    native/src/bin/f_cfi_unwind_1.rs of B-cfi_unwind), address_size in {1,2,4,8} ([C01:address-size-validated]).
 """
 import ast
 import re
@@ -17,7 +126,7 @@ VERUS_ARGS = ['--rlimit', '40']
 RETRY_RLIMIT = 120
 MULTIPLE_ERRORS = 6
 
-OWN = ['C01', 'C06']
+OWN = ['C01', 'C06', 'C20']
 OWN_CTX = ['C01', 'C06', 'C20']
 
 # ---- where the PROVED contracts differ from the sentences B-cfi_unwind assumes (all untagged helper clauses; every tagged clause is
@@ -84,6 +193,39 @@ def assumed_contracts():
             elif st.func.attr == 'insert_members':
                 members[var] = ev(st.args[0])
     return contracts, members
+
+
+def drop_listed(it, names):
+    """extract EVERY method of an impl except the explicit drop-list `names` (methods Verus cannot take / types not extracted):
+    a helper method added to the impl later is extracted verbatim, contract-less -- its body is verified for safety and its callers
+    see no postcondition.  A listed method that does not exist any more is a lost anchor."""
+    have = it.fns()
+    for n in names:
+        if n not in have:
+            raise Lost(f'{it._where(n)}: method on the drop-list not found')
+    return it.drop(list(names))
+
+
+UNKNOWN_LOOP = 'decreases 0int'
+
+
+def guard_unknown_loops(it, known):
+    """every `loop` / `while` of the impl that this batch has no loop specification for (known: {fn: [ordinals]}) -- none on the
+    pinned tree -- gets the measure `decreases 0int`: a loop added later is then a FAILED termination obligation of its function
+    (exit 1, owners of the item) instead of Verus' front-end error `loop must have a decreases clause` (exit 2, undecided), and its
+    function is still verified against its contract.  Must run before the contract splices (ordinals are textual)."""
+    for name in it.fns():
+        s0, e0 = method_span(it.text, name)
+        k = re.search(r'\bfn\s+%s\b' % re.escape(name), it.text[s0:e0]).start() + s0
+        b = body_open(it.text, k)
+        if it.text[b] != '{':
+            continue
+        body = it.text[b:e0]
+        extra = {n: UNKNOWN_LOOP for n, m in enumerate(LOOP_RE.finditer(body))
+                 if m.group(1) in ('loop', 'while') and n not in known.get(name, [])}
+        if extra:
+            it.splice(name, loops=extra)
+    return it
 
 
 def need(d, key):
@@ -325,7 +467,8 @@ def populate_rule_map(ctx, sk, cfi, C, M):
     df.own(OWN)
     sk.add('read::cfi', df)
 
-    rrm = cfi.item(r'^impl<T, S> RegisterRuleMap<T, S>', label='RegisterRuleMap').keep_only(['is_default', 'get', 'clear', 'set'])
+    rrm = cfi.item(r'^impl<T, S> RegisterRuleMap<T, S>', label='RegisterRuleMap')
+    drop_listed(rrm, ['iter'])       # returns RegisterRuleIter (wrapper of slice::Iter, not extracted)
     # R-ITER (get): `iter().find(p).map(f)` is an iterator adapter chain outside Verus; it is rewritten to the `for` loop it
     # abbreviates, with the two closure bodies kept verbatim (regex groups), so an edit of either closure reaches the verifier.
     rrm.custom_re('R-ITER', r'self\s*\.rules\s*\.iter\(\)\s*\.find\(\|rule\| ([^\n]+)\)\n\s*\.map\(\|rule\| ([^\n]+)\)\n',
@@ -345,6 +488,7 @@ def populate_rule_map(ctx, sk, cfi, C, M):
     if RRM_VIEW_ASSUMED not in ghost:
         raise Lost('cfi_unwind.py: RegisterRuleMap ghost members')
     rrm.insert_members(ghost.replace(RRM_VIEW_ASSUMED, RRM_VIEW_DEFINED))
+    guard_unknown_loops(rrm, {'get': [0], 'clear': [0], 'set': [0]})
 
     rrm.splice('is_default', ret='res', ensures=['[C06:rules-default] res == (self.view() == Map::<Register, RegisterRule<T>>::empty())'],
                before=[('self.rules.is_empty()', 'proof { if self.rules.view().len() == 0 { lemma_rules_empty(self.rules.view()); } else { lemma_rules_nonempty(self.rules.view()); } }')])
@@ -413,8 +557,9 @@ def populate_row(ctx, sk, cfi, C, M):
 
     row = cfi.item(r'^impl<T, S> UnwindTableRow<T, S>', label='UnwindTableRow')
     obs = ['start_address', 'end_address', 'contains', 'saved_args_size', 'cfa', 'register']
-    row.keep_only(['is_default'] + obs).clean()
+    drop_listed(row, ['registers']).clean()      # `registers` returns RegisterRuleIter (not extracted)
     row.insert_members(need(M, 'row') + ROW_GHOST_EXTRA)
+    guard_unknown_loops(row, {})
     row.splice('is_default', ret='res', ensures=[
         f'[C20:row-is-default] res == (self.abs().start == 0 && self.abs().end == 0 && self.abs().cfa == {DEFAULT_CFA} '
         '&& self.abs().rules == Map::<Register, RegisterRule<T>>::empty())'])
@@ -515,6 +660,7 @@ def populate_context(ctx, sk, cfi, C, M):
     if REPR_OLD not in ghost:
         raise Lost('cfi_unwind.py: UnwindContext::repr_ok')
     uc.insert_members(ghost.replace(REPR_OLD, REPR_NEW))
+    guard_unknown_loops(uc, {'initialize': [0]})
 
     def contract(name):
         return with_delta('UnwindContext', name, need(C, ('uc', name)))
@@ -533,7 +679,7 @@ def populate_context(ctx, sk, cfi, C, M):
               after=[('let mut table = UnwindTable::new_for_cie(section, bases, self, cie);', 'let ghost verif_f0 = *final(table.ctx);')],
               attrs='#[verifier::loop_isolation(false)]', owners=OWN_CTX, canary=True)
     uc.splice('reset', canary=True, **contract('reset'),
-              after=[('self.is_initialized = false;', f'proof {{ assert({ROWS}.map_values({ABSF}) =~= seq![{ROWS}[0].abs()]); }}')])
+              after=[('self.is_initialized = false;', f'proof {{ assert({ROWS}.len() == 1 ==> {ROWS}.map_values({ABSF}) =~= seq![{ROWS}[0].abs()]); }}')])
     uc.splice('row', ret='res', canary=True, **contract('row'),
               before=[('self.stack.last().unwrap()', 'proof { broadcast use group_seq_abs; }')])
     # row_mut: the caller may write anything through the returned reference, so the row invariant of the final context is
